@@ -157,6 +157,13 @@ def check_requery_nul_alias(t1: int, t2: int, grow: bool, n1: bool, n2: bool) ->
     return _second_query("nul_alias", t1, t2, grow, n1, n2)
 
 
+def check_twin_query_nonempty_reachable(c0: int, c1: int, thr: int) -> bool:
+    """
+    pre: 0 <= c0 < 2**32 and 0 <= c1 < 2**32 and 0 <= thr < 2**32
+    post: _ == True
+    """
+    return mk("distinct", c0, c1, c0 + c1 + 1).query(3, thr) == []      # false claim: must be refuted
+
 # ---------------------------------------------------------------------------------------------- real-library replays
 def _real_query(pattern, c0, c1, k, thr):
     ok = _query_ok(pattern, c0, c1, k, thr)
